@@ -238,6 +238,16 @@ def whole_object_ops(cls, inv, setup, load_sh=None):
             # verified) callees inlined instead of replaced by their contracts
             v['inline_callees'] = True
         e.setdefault(cls + r'::load', []).append(v)
+    # operator T() const: a load through the exclusive lock (lock_guard) in every wrapper that has one
+    e[cls + r'::op_conv\w*'] = dict(
+        props='C01 C02 C15 C20', setup=setup, optional=True,
+        requires=[inv + ' && FREE(self->m_mutex) && vf_held == 0 && !vf_exc && !vf_user_threw && ' + R3],
+        ensures=[('C01 C02 C15 C20', one_cs(False), 'the conversion is exactly one exclusive critical section; the lock is released on normal and on exceptional exit'),
+                 ('C20', 'vf_user_threw == (vf_exc != 0)', 'an exception thrown by the copy propagates to the caller; nothing else throws'),
+                 ('C15', '!vf_exc ==> (vf_ret->v == vf_cs_entry_v && vf_ret->life == VF_LIVE)', 'the conversion returns the value the object had inside the critical section'),
+                 ('C15 C20', inv + ' && self->m_obj.v == vf_cs_entry_v', 'the object is not modified'),
+                 ('', G3, 'counters')],
+        assigns='*vf_ret, self->m_mutex, self->m_obj.v, ' + GHOST_ASSIGNS)
     for m in ('store', 'op_assign'):
         e[cls + '::' + m] = dict(
             props='C01 C02 C15 C20', setup=setup,
